@@ -1,0 +1,25 @@
+//go:build verif
+
+package cache
+
+// Verification hooks, compiled only with `-tags verif`.
+// VerifClock, when set, replaces the wall clock of the cache package.
+// VerifHook, when set, is called at named points of the entry protocol with the
+// entry's identity, and may block to impose a schedule.
+
+var VerifClock func() int64
+
+var VerifHook func(point string, entry interface{})
+
+func verifNow() (int64, bool) {
+	if f := VerifClock; f != nil {
+		return f(), true
+	}
+	return 0, false
+}
+
+func verifPoint(point string, hc *httpCache) {
+	if f := VerifHook; f != nil {
+		f(point, hc)
+	}
+}
